@@ -277,7 +277,7 @@ def run(ctx):
                 f"property SUMMARY/DESCRIPTION/X-TEXT via Event.add->to_ical->from_ical; CATEGORIES item in shapes "
                 f"{SHAPES}; COMMENT/X-TEXT occurring 2-3 times in one component with empty occurrences, |s|<=3); every other TEXT property name of RFC 5545 at |s|<=2; codec and SUMMARY additionally up to |s|<={kc}; plus core-8 symbols joined by "
                 f"{len(chosen)} pair(s) of 20 other characters incl. non-ASCII blanks, a combining mark, U+FEFF and U+200B (seed-rotated in quick, all 190 pairs in thorough) at "
-                "|s|<=4; plus EVERY Unicode scalar value inside a value on the codec path (both tiers) and on the property and list paths (thorough: all; quick: U+0000..U+0FFF and a seed-rotated eighth of the remaining 256-blocks). non-trivial = s contains a character that escaping changes.")
+                "|s|<=4; 11 escape-bearing fragments at the end / start / middle of values of every length 0..160 (each lands on every column of a folded line); plus EVERY Unicode scalar value inside a value on the codec path (both tiers) and on the property and list paths (thorough: all; quick: U+0000..U+0FFF and a seed-rotated eighth of the remaining 256-blocks). non-trivial = s contains a character that escaping changes.")
     ctx.bounds = {"alphabet": [repr(c) for c in CORE], "k_all_paths": k, "k_codec_summary": kc,
                   "extra_pairs": [[repr(a), repr(b)] for a, b in chosen[:3]], "n_extra_pairs": len(chosen)}
     ctx.assumptions += ["a bare CR is not a line break (neither RFC 5545 nor the library's splitter treat it as one)",
@@ -324,7 +324,19 @@ def run(ctx):
         for i, b in enumerate(range(0, 0x110000, BLOCK)):
             yield ("blk", b, (not ctx.quick) or i < 16 or i % 8 == ctx.seed % 8)
 
+    def gen_long():
+        # escapes meeting the folding layer: a value of every length up to two folds that ENDS (or starts, or is cut in the
+        # middle) with something the escaping changes, so that each of these falls on every column of a physical line
+        tails = ("\\", ";", ",", "\n", "\\n", "a\\", "\\\\", "\r\n", "\u00e9\\", "\\;", "n")
+        for tail in tails:
+            for pad in range(0, 161):
+                for s_ in ("x" * pad + tail, tail + "x" * pad, "x" * (pad // 2) + tail + "x" * (pad - pad // 2)):
+                    yield ("prop", "SUMMARY", s_)
+                    yield ("list", "s,x", s_)
+                    yield ("list", "x,s", s_)
+
     ctx.explore("core-alphabet:all-paths", gen_main, run_case)
+    ctx.explore("escapes-on-every-fold-column", gen_long, run_case)
     ctx.explore("every-scalar-value-in-a-text-value", gen_all, run_block)
     ctx.explore("every-TEXT-property-name", gen_names, run_case)
     ctx.explore("repeated-property-with-empty-occurrences", gen_twice, run_case)
